@@ -21,7 +21,7 @@ Base == << Tok("EQ", "str", "=="), Tok("UN", "str", "!"), Rule("start", E), Rule
 Pool == <<
   Dir("left",  <<HTerm("+", TRUE)>>),
   Dir("left",  <<HTerm("*", TRUE), HTerm(",", TRUE)>>),
-  Dir("right", <<HTerm("^", TRUE)>>),
+  Dir("right", <<HTerm("^", TRUE), HRule("e", Cat(Cat(S("("), NT("l")), S(")")))>>),   \* a rule handle with terminals BEHIND another handle
   Dir("none",  <<HTerm("<", TRUE), HTerm("EQ", FALSE)>>),
   Dir("left",  <<HRule("e", Cat(E, E))>>),
   Dir("right", <<HRule("e", Alt(Cat(UN, E), S("x")))>>),
